@@ -2,3 +2,4 @@ import HopModel.Props.C14
 import HopModel.Props.C20
 import HopModel.Props.C08
 import HopModel.Props.C11
+import HopModel.Props.C09
